@@ -14,6 +14,12 @@ package c05
 import (
 	"strconv"
 
+	discovery "github.com/envoyproxy/go-control-plane/envoy/service/discovery/v3"
+
+	v3 "istio.io/istio/pilot/pkg/xds/v3"
+	"istio.io/istio/pkg/config/schema/kind"
+	"istio.io/istio/pkg/util/sets"
+
 	"istio.io/istio/pilot/pkg/model"
 	pxds "istio.io/istio/pilot/pkg/xds"
 	"verif/harness/vlib"
@@ -31,8 +37,16 @@ func (g *gen) enqCase(id int, g0 int, ls []int) {
 	est := pxds.VerifC05NewConnection(s, "established-1", &model.Proxy{ID: "established", Metadata: &model.NodeMetadata{}, LastPushContext: mk(g0)}, &sotwStream{}, nil)
 	pxds.VerifC05AddCon(s, est)
 	est.MarkInitialized()
-	proxy := &model.Proxy{ID: "connecting", Metadata: &model.NodeMetadata{}}
-	con := pxds.VerifC05NewConnection(s, "connecting-2", proxy, &sotwStream{}, nil)
+	pxds.VerifC05SetGenerators(s, map[string]model.XdsResourceGenerator{v3.ClusterType: &fakeGen{kind: gPlain, world: worldT{tCDS: {{1, 1}}}}})
+	proxy := &model.Proxy{ID: "connecting", Type: model.SidecarProxy, Metadata: &model.NodeMetadata{}}
+	delta := id%2 == 1
+	ss, ds := &sotwStream{}, &deltaStream{}
+	var con *pxds.Connection
+	if delta {
+		con = pxds.VerifC05NewConnection(s, "connecting-2", proxy, nil, ds)
+	} else {
+		con = pxds.VerifC05NewConnection(s, "connecting-2", proxy, ss, nil)
+	}
 	pc, pending, global, snaps := 0, 0, g0, 0
 	for _, l := range ls {
 		switch l {
@@ -43,6 +57,7 @@ func (g *gen) enqCase(id int, g0 int, ls []int) {
 			case 1:
 				pxds.VerifC05AddCon(s, con)
 			case 2:
+				proxy.WatchedResources = map[string]*model.WatchedResource{} // initializeProxy
 				con.MarkInitialized()
 			}
 			if pc < 3 {
@@ -56,16 +71,48 @@ func (g *gen) enqCase(id int, g0 int, ls []int) {
 			}
 		case 2:
 			if pending != 0 {
-				s.AdsPushAll(&model.PushRequest{Push: pxds.VerifC05GlobalPushContext(s), Reason: model.NewReasonStats(model.ConfigUpdate)})
+				s.AdsPushAll(&model.PushRequest{Push: pxds.VerifC05GlobalPushContext(s), Reason: model.NewReasonStats(model.ConfigUpdate),
+					ConfigsUpdated: sets.New(model.ConfigKey{Kind: kind.AuthorizationPolicy, Name: "p", Namespace: "ns"})})
 				pending = 0
 				snaps++
 			}
 		}
 	}
-	got := pxds.VerifC05DrainQueue(s)
 	lpc := 0
 	if proxy.LastPushContext != nil {
 		lpc, _ = strconv.Atoi(proxy.LastPushContext.PushVersion)
+	}
+	// the queued pushes are HANDLED by the real pushConnection / pushConnectionDelta (initialised connections
+	// only); the connecting proxy has no watch yet
+	got, herr := pxds.VerifC05HandleQueue(s)
+	if herr != nil {
+		g.c.Violate(vlib.Violation{ID: id, Kind: "crash", Detail: "handling the queued push failed: " + herr.Error(), Case: map[string]any{"schedule": ls}})
+		return
+	}
+	hlpc := 0
+	if proxy.LastPushContext != nil {
+		hlpc, _ = strconv.Atoi(proxy.LastPushContext.PushVersion)
+	}
+	// ... and then the proxy (re-)subscribes to CDS with the nonce of its old stream: the answer's version is
+	// the context it is served from
+	ver := 0
+	if pc == 3 {
+		var perr error
+		if delta {
+			perr = pxds.VerifC05ProcessDeltaRequest(s, con, &discovery.DeltaDiscoveryRequest{TypeUrl: v3.ClusterType, ResponseNonce: "n1"})
+			if perr == nil && len(ds.sent) == 1 {
+				ver, _ = strconv.Atoi(ds.sent[0].SystemVersionInfo)
+			}
+		} else {
+			perr = pxds.VerifC05ProcessRequest(s, con, &discovery.DiscoveryRequest{TypeUrl: v3.ClusterType, ResponseNonce: "n1", VersionInfo: "old"})
+			if perr == nil && len(ss.sent) == 1 {
+				ver, _ = strconv.Atoi(ss.sent[0].VersionInfo)
+			}
+		}
+		if perr != nil {
+			g.c.Violate(vlib.Violation{ID: id, Kind: "crash", Detail: "subscription after the handled push failed: " + perr.Error(), Case: map[string]any{"schedule": ls}})
+			return
+		}
 	}
 	q, has := got["connecting-2"]
 	qv, _ := strconv.Atoi(q)
@@ -78,14 +125,18 @@ func (g *gen) enqCase(id int, g0 int, ls []int) {
 		if pc == 2 {
 			tags = append(tags, "enq-queued-before-initialised")
 		}
+		if pc == 3 {
+			tags = append(tags, "enq-push-handled-without-watches")
+		}
 	}
 	names := make([]string, len(ls))
 	for i, l := range ls {
 		names[i] = lblTerm[l]
 	}
 	g.c.Add(vlib.Case{ID: id, Tags: tags, Trivial: snaps == 0 || pc == 0,
-		Term:   vlib.App("Enq", vlib.NI(id), vlib.NI(g0), vlib.List(names), vlib.NI(lpc), vlib.Opt(has, vlib.NI(qv))),
-		Sample: map[string]any{"kind": "enq", "g0": g0, "schedule": names, "lastPushContext": lpc, "queued": has, "queued_version": qv, "setup_steps_done": pc}})
+		Term:   vlib.App("Enq", vlib.NI(id), vlib.NI(g0), vlib.List(names), vlib.NI(lpc), vlib.Opt(has, vlib.NI(qv)), vlib.NI(hlpc), vlib.NI(ver)),
+		Sample: map[string]any{"kind": "enq", "g0": g0, "schedule": names, "lastPushContext": lpc, "queued": has, "queued_version": qv, "setup_steps_done": pc,
+			"delta": delta, "lastPushContext_after_handling": hlpc, "subscription_answered_from_version": ver}})
 }
 
 func (g *gen) enq(rnd *vlib.Rand) {
